@@ -881,6 +881,46 @@ def run(prog, rep, tier):
         rep.violation(R816, fb_.path + "|candidate-set|early-return", "filesz_to_types can return the candidate layouts before all by-size tests ran (when the file name already suggested a fitting layout); "
                       "a Linux wtmp whose record count is divisible by 5 or 19 also fits the hinted 40- or 304-byte BSD layouts and is then decoded with those - garbage lines or 'no valid fixed struct'")
 
+    # ------------------------------------------------------------ R8.18 a record's type code is named in its own platform's numbering
+    # as_bytes prints ut_type as a name looked up in a constant table.  The platforms number the types
+    # differently (FreeBSD: 4 = USER_PROCESS, 7 = DEAD_PROCESS; Linux: 7 = USER_PROCESS; NetBSD swaps
+    # OLD_TIME/NEW_TIME relative to Linux), so two arms that belong to different OS families (the module
+    # of the struct the arm casts to) cannot both be right when they index a table of the same content.
+    # Compared by content, not by name (defect F47: every arm used the Linux table; a FreeBSD login
+    # record was printed as 'ut_type OLD_TIME').
+    R818 = rep.rule("R8.18", "layout arms of different OS families name the ut_type through different tables")
+    fam_tab = {}
+    for v_, tb_ in heads_:
+        own_ = set(reach_[tb_])
+        for tb2, r2 in reach_.items():
+            if tb2 != tb_:
+                own_ -= r2
+        fams_ = set()
+        for c in ab_.live_calls():
+            if c.bb in own_ and "::as_" in c.d:
+                m_ = _re8.search(r"fixedstruct::(\w+?)_\w+::\w+$", (ab_.local_ty(c.dest[0]) or "").lstrip("&"))
+                if m_:
+                    fams_.add(m_.group(1))
+        tabs_ = set()
+        for bb in own_:
+            for st in ab_.stmts(bb):
+                if st[0] == "=" and st[2][0] == "use" and st[2][1][0] == "k" and str(st[2][1][1]).replace(" ", "") in ("&[&str]", "&'static[&'staticstr]") and isinstance(st[2][1][2], list):
+                    tabs_.add(tuple(st[2][1][2]))
+        if not tabs_:
+            continue
+        if len(fams_) != 1:
+            raise CheckerError("R8.18: arm %s of as_bytes casts to structs of %s" % (v_, sorted(fams_)))
+        fam_ = fams_.pop()
+        rep.examined(R818, "as_bytes|layout %s" % v_, sample={"layout_discriminant": v_, "os_family": fam_, "label_tables": [list(t_)[:5] for t_ in tabs_]})
+        for t_ in tabs_:
+            fam_tab.setdefault(t_, set()).add(fam_)
+    if len(fam_tab) < 1 or sum(len(x_) for x_ in fam_tab.values()) < 3:
+        raise CheckerError("R8.18: ut_type label tables found for %d families" % sum(len(x_) for x_ in fam_tab.values()))
+    for t_, fs_ in sorted(fam_tab.items()):
+        if len(fs_) > 1:
+            rep.violation(R818, "as_bytes|ut_type-labels|shared:%s" % "+".join(sorted(fs_)), "FixedStruct::as_bytes names the ut_type of %s records through one table (%s ...); these platforms number the types differently, "
+                          "so records of at least one of them are printed with the wrong type name (a FreeBSD login, type 4, as 'OLD_TIME')" % (" and ".join(sorted(fs_)), ", ".join(t_[:5])))
+
     # ------------------------------------------------------------ R8.17 the layout is a function of the file (lift of C06 R6.12 at the reader)
     # score_file walks the candidate layouts and keeps the first that reaches the highest score.  The
     # walk order must not come from a randomly seeded hash container (defect F45: a lastlog on which the
